@@ -1,7 +1,14 @@
+import threading
+
 import numpy as np
 from scipy.optimize import curve_fit
 
 from wavespectra.core import npstats
+
+
+# warnings.catch_warnings() saves and restores the process-wide filter list and is not
+# thread-safe: the fits below run as dask tasks, so serialise them
+_WARNINGS_LOCK = threading.Lock()
 
 
 def _fit_jonswap(ef, freq, fp0, hs0, gamma0=1.5):
@@ -21,7 +28,7 @@ def _fit_jonswap(ef, freq, fp0, hs0, gamma0=1.5):
     import warnings
     from scipy.optimize import OptimizeWarning
 
-    with warnings.catch_warnings():
+    with _WARNINGS_LOCK, warnings.catch_warnings():
         warnings.filterwarnings("error")
 
         if np.isnan(fp0) or (hs0 < 1e-10):
@@ -92,7 +99,7 @@ def _fit_gaussian(ef, freq, fp0, hs0, gw):
         OptimizeWarning,
     )  # Covariance - warning make nans for unreliable fits
 
-    with warnings.catch_warnings():
+    with _WARNINGS_LOCK, warnings.catch_warnings():
         warnings.filterwarnings("error")
 
         if np.isnan(fp0) or (hs0 < 1e-10):
